@@ -108,6 +108,11 @@ func runC02(c *Ctx) {
 				own = append(cl.ExpectedPrefixes(), extra, extra)
 				_ = own
 			}
+			// ... or narrows the list it was handed IN PLACE (it only holds keys of one role): its own business
+			handed := cl.ExpectedPrefixes()
+			for i := range handed {
+				handed[i] = nkeys.PrefixByteUser
+			}
 		}
 	}
 	extendPrefixes()
@@ -675,6 +680,24 @@ func checkEnvelope(c *Ctx, kr *keyring) {
 			}
 		}
 	}
+	// what DecodeGeneric makes of hand-written version-1 generic tokens with little or nothing in them (no nats section,
+	// no kind, no tags; only a kind; only tags): encoded again, it is a version-2 token that says so
+	for vi, pj := range []string{
+		`{"iss":"` + kr.by["user"].pub + `","sub":"s","iat":1700000000}`,
+		`{"iss":"` + kr.by["user"].pub + `","sub":"s","iat":1700000000,"name":"n","jti":"x"}`,
+		`{"iss":"` + kr.by["user"].pub + `","sub":"s","iat":1700000000,"type":"generic"}`,
+		`{"iss":"` + kr.by["user"].pub + `","sub":"s","iat":1700000000,"tags":["a"]}`,
+		`{"iss":"` + kr.by["user"].pub + `","sub":"s","iat":1700000000,"nats":{}}`,
+		`{"iss":"` + kr.by["user"].pub + `","sub":"s","iat":1700000000,"nats":null}`,
+		`{"iss":"` + kr.by["user"].pub + `","sub":"s","iat":1700000000,"type":"my-kind","nats":{"a":1}}`,
+	} {
+		ft := forge(hdrV1, pj, "v1", kr.by["user"])
+		if d, err := jwt.DecodeGeneric(ft.Token); err == nil && d != nil {
+			if t2, err := d.Encode(kr.by["user"].kp); err == nil {
+				toks[fmt.Sprintf("version-1 generic token form %d read by DecodeGeneric and encoded again", vi)] = t2
+			}
+		}
+	}
 	// generic claims: whatever the data map holds - a nested object named nats, a kind of its own, a stale or ill-typed
 	// version left by the application or by a decoder - Encode writes version 2 into the nats section
 	for gi, data := range []map[string]interface{}{
@@ -1087,7 +1110,14 @@ func runC01(c *Ctx) {
 				"--- token ---\n"+tok+"\n--- end ---\n",
 				"-----BEGIN NATS USER JWT-----\n"+tok+"\n------END NATS USER JWT------",
 				"---\n"+tok+"\n---",
-				" "+tok, tok+" ", tok+"\n", "\n"+tok, "\t"+tok+"\r\n", "\""+tok+"\"", "Bearer "+tok, tok+"\x00")
+				" "+tok, tok+" ", tok+"\n", "\n"+tok, "\t"+tok+"\r\n", "\""+tok+"\"", "Bearer "+tok, tok+"\x00",
+				// base64 padding: segments are UNPADDED base64url - a padded spelling of a segment is another text
+				tok+"=", tok+"==", tok+"===")
+			if ch := strings.Split(tok, "."); len(ch) == 3 {
+				pad := func(s string) string { return s + strings.Repeat("=", (4-len(s)%4)%4) }
+				dressed = append(dressed, pad(ch[0])+"."+ch[1]+"."+ch[2], ch[0]+"."+pad(ch[1])+"."+ch[2], ch[0]+"."+ch[1]+"."+pad(ch[2]),
+					pad(ch[0])+"."+pad(ch[1])+"."+pad(ch[2]))
+			}
 			for i, d := range dressed {
 				ft := forged{Token: d, Note: fmt.Sprintf("token %s in armour form %d", name, i)}
 				_, o := processToken(c, w, ft)
